@@ -263,6 +263,9 @@ def budget(tier):
 def gen_case(rng, tier, g):
     case = _gen_case(rng, tier, g)
     case['fluent'] = rng.random() < 0.15
+    if rng.random() < 0.15:
+        case['upstream'] = 'records'
+        case['fluent'] = False
     # the host application's petl.config / logging set-up must not matter
     cfg = draw_config(rng, 0.12, exclude=('failonerror',))
     if cfg:
@@ -382,6 +385,17 @@ def _build(e, case, fl, policy, mode, tbl):
         from sim.loader import Fluent
         e = Fluent(e)
     form = case['form']
+    if case.get('upstream') == 'records' and len(tbl) and tbl[0]:
+        # the table reaches the operator through earlier stages that hand
+        # their rows on as record objects made under OTHER field names (a
+        # conditional convert passes the rows it does not select on as they
+        # are), renamed afterwards: rows are rows, whatever class they have
+        # (materialised rows of such a pipeline, put under a new header by
+        # hand; only prefixheader/suffixheader pass record objects through
+        # unchanged, and the forms here need their own field names)
+        from petl.util.base import Record
+        flds = ['q%d' % i for i in range(len(tbl[0]))]
+        tbl = [tbl[0]] + [Record(r, flds) for r in tbl[1:]]
     kw = {}
     if mode == 'arg':
         kw['failonerror'] = policy
